@@ -20,6 +20,7 @@ package security
 
 import (
 	"crypto/md5"
+	"crypto/rand"
 	"crypto/sha1"
 	"encoding/base32"
 	"encoding/base64"
@@ -44,6 +45,12 @@ var next = uint64(
 
 // NewID generates a new, process-wide unique ID.
 func NewID() ID {
+	// 标识被用作访问令牌、摘要认证 nonce、会话号和数据通道号，必须不可预测；
+	// 自增计数器会经由任何 RTSP 响应的 Session 头泄露给未认证的客户端
+	var b [8]byte
+	if _, err := rand.Read(b[:]); err == nil {
+		return ID(binary.BigEndian.Uint64(b[:]))
+	}
 	return ID(atomic.AddUint64(&next, 1))
 }
 
